@@ -675,6 +675,52 @@ static Result run_elem(const json &c) {
         r.fail(key, fmt("getMass(%s) throws: %s", sym.c_str(), ex.what()));
       }
   }
+  // mass -> symbol: the element CLOSEST in mass, for every tolerance that admits it (a wide tolerance must not let a
+  // neighbour win: Bi/Po are 0.02 apart, Ar/Ca 0.13, Co/Ni 0.24)
+  {
+    std::string key = "Elements/closest-in-mass/" + sym;
+    if (!excl(key) && !known("Elements/mass/" + sym)) try {
+        double m = el.getMass(sym);
+        double gap = 1e300;  // distance to the nearest other tabulated mass
+        for (auto &t : iupac()) {
+          if (t.sym == sym || !el.isEleShort(t.sym)) continue;
+          gap = std::min(gap, std::fabs(el.getMass(t.sym) - m));
+        }
+        if (gap > 0) {
+          for (double frac : {0.0, 0.4, -0.4}) {
+            double q = m + frac * gap;
+            for (double tol : {1e-9, 0.01, 0.05, 0.13, 0.25, 1.0, 10.0}) {
+              bool admits = std::fabs(q - m) <= tol * (1 - 1e-12), rejects = std::fabs(q - m) > tol * (1 + 1e-12);
+              if (!admits && !rejects) continue;
+              vt::Elements e3;
+              bool assoc = e3.isMassAssociatedWithElement(q, tol);
+              std::string got;
+              bool threw = false;
+              try {
+                got = e3.getEleShortClosestInMass(q, tol);
+              } catch (const std::runtime_error &) {
+                threw = true;
+              }
+              if (admits && (threw || got != sym || !assoc)) {
+                r.fail(key, fmt("mass %.10g (%s%+.3g) with tolerance %g: closest element reported as '%s'%s, isMassAssociatedWithElement=%d; expected %s",
+                                q, sym.c_str(), q - m, tol, got.c_str(), threw ? " (threw)" : "", int(assoc), sym.c_str()));
+                break;
+              }
+              if (rejects && (!threw || assoc)) {
+                r.fail(key, fmt("mass %.10g is %.3g away from the closest element (%s) but tolerance %g %s", q, std::fabs(q - m), sym.c_str(), tol,
+                                threw ? "is reported as associated" : ("returned '" + got + "'").c_str()));
+                break;
+              }
+            }
+            if (!r.ok) break;
+          }
+          r.cls("closest-in-mass-checked");
+        } else
+          r.cls("mass-shared-with-another-element");
+      } catch (const std::exception &ex) {
+        r.fail(key, fmt("mass lookup of %s throws: %s", sym.c_str(), ex.what()));
+      }
+  }
   // symbol <-> full name
   {
     std::string key = "Elements/name-roundtrip/" + sym;
